@@ -274,6 +274,7 @@ Proof.
     unfold acc_plain in Hp. apply andb_true_iff in Hp. destruct Hp as [Hp H3]. apply andb_true_iff in Hp. destruct Hp as [H1 H2].
     apply negb_true_iff in H1. apply negb_true_iff in H2. apply negb_true_iff in H3.
     erewrite accessor_text; [| apply (IHx Hx) | exact H1 | exact H2 | exact H3]. norm_render. reflexivity.
+  - (* the <key property> *) intros n _ pc ind. cbn [reify_e pp_tok]. norm_render. reflexivity.
   - intros _ pc ind. reflexivity.
   - intros x l IHx IHl [Hx Hl] pc ind. cbn [reify_args]. destruct (reify_args en (pc + zlen (compile_e x)) l) as [ns pa] eqn:Er.
     cbn [fst map]. rewrite (IHx Hx). specialize (IHl Hl (pc + zlen (compile_e x))%Z ind). rewrite Er in IHl. cbn [fst] in IHl. rewrite IHl. reflexivity.
